@@ -76,6 +76,24 @@ func (c *ctx) buildPlan(n int) []planned {
 			plan = append(plan, planned{func(scn string) Event { return doDecodeSecret(scn, secret) }})
 		}
 	}
+	// bursts: several goroutines ask for the same never-seen suite string / 9-10 digit codes at the same moment
+	for b := 0; b < 4; b++ {
+		name := c.grammarName()
+		at := c.rng.Intn(len(plan) + 1)
+		var burst []planned
+		for k := 0; k < 8; k++ {
+			burst = append(burst, planned{func(scn string) Event { return doNewRawSuite(scn, name, false) }})
+		}
+		key := c.someKey()
+		secret := b32(key)
+		for k := 0; k < 12; k++ {
+			ctr := c.someCounter()
+			d := uint8(9 + k%2)
+			a := uint8(c.rng.Intn(3))
+			burst = append(burst, planned{func(scn string) Event { return doGenerateHOTP(scn, secret, ctr, P{Digits: d, Alg: a}) }})
+		}
+		plan = append(plan[:at], append(burst, plan[at:]...)...)
+	}
 	return plan
 }
 
@@ -92,12 +110,21 @@ func scenC11(c *ctx) {
 			plan := c.buildPlan(c.n(120, 400))
 			tag := fmt.Sprintf("C11/r%d/g%d-p%d", round, cf.g, cf.procs)
 			c.rec.Hold()
-			// phase A: alone
+			// phase A: alone.  In every second configuration the concurrent phase runs FIRST (so that it meets
+			// never-seen inputs: first-use races) and the solo run follows; the trace lists the solo events first.
 			old := runtime.GOMAXPROCS(1)
-			for i, p := range plan {
-				e := p.run(fmt.Sprintf("%s/solo/%d", tag, i+1))
-				e.Plan, e.Phase = i+1, "solo"
-				c.rec.Emit(e)
+			solo := make([]Event, len(plan))
+			runSolo := func() {
+				runtime.GOMAXPROCS(1)
+				for i, p := range plan {
+					e := p.run(fmt.Sprintf("%s/solo/%d", tag, i+1))
+					e.Plan, e.Phase = i+1, "solo"
+					solo[i] = e
+				}
+			}
+			concFirst := ci%2 == 1
+			if !concFirst {
+				runSolo()
 			}
 			// phase B: the same plan concurrently
 			runtime.GOMAXPROCS(cf.procs)
@@ -164,7 +191,13 @@ func scenC11(c *ctx) {
 			wg.Wait()
 			close(stop)
 			bg.Wait()
+			if concFirst {
+				runSolo()
+			}
 			runtime.GOMAXPROCS(old)
+			for _, e := range solo {
+				c.rec.Emit(e)
+			}
 			var kept, copies []string
 			for _, e := range evs {
 				c.rec.Emit(e)
